@@ -90,9 +90,23 @@ func isCommentLine(rs ...aa.Rule) bool {
 	return false
 }
 
+// isPreambleKind: abi, alias and variable rules have no weight in the kind order of Rules.Sort either
+func isPreambleKind(rs ...aa.Rule) bool {
+	for _, r := range rs {
+		switch r.(type) {
+		case *aa.Abi, *aa.Alias, *aa.Variable:
+			return true
+		}
+	}
+	return false
+}
+
 func diffCause(a, b aa.Rule) string {
 	if isCommentLine(a, b) {
 		return "comment-line-in-the-kind-order"
+	}
+	if isPreambleKind(a, b) {
+		return "preamble-kind-without-weight-in-the-kind-order"
 	}
 	fa, fb := universe.Fields(a, false), universe.Fields(b, false)
 	if strings.EqualFold(fa, fb) {
@@ -137,6 +151,9 @@ func diffCause(a, b aa.Rule) string {
 func tripleCause(kind string, a, b, c aa.Rule) string {
 	if isCommentLine(a, b, c) {
 		return "comment-line-in-the-kind-order"
+	}
+	if isPreambleKind(a, b, c) {
+		return "preamble-kind-without-weight-in-the-kind-order"
 	}
 	ifx, plain := 0, 0
 	for _, r := range []aa.Rule{a, b, c} {
@@ -275,6 +292,9 @@ func subsetCause(kind string, sub []aa.Rule) string {
 	if isCommentLine(sub...) {
 		return "comment-line-in-the-kind-order"
 	}
+	if isPreambleKind(sub...) {
+		return "preamble-kind-without-weight-in-the-kind-order"
+	}
 	for i := range sub {
 		for j := range sub {
 			if i < j && sub[i].Kind() == sub[j].Kind() && sub[i].Compare(sub[j]) == 0 && universe.Fields(sub[i], false) != universe.Fields(sub[j], false) {
@@ -385,7 +405,44 @@ func main() {
 	if *tier == universe.Thorough {
 		maxK = 5
 	}
-	if *kind == "mixed" {
+	if *kind == "twins" {
+		// (third hunt) pairs that print differently and that no Compare tells apart: the same rule with and without a
+		// trailing comment or marker; two blocks of one name. Each pair: Compare in both directions, Sort in both orders.
+		type pair struct {
+			kind, cause string
+			a, b        aa.Rule
+		}
+		f := func(c string, fi bool) aa.Rule {
+			return &aa.File{Base: aa.Base{Comment: c, FileInherit: fi}, Path: "/etc/foo.conf", Access: []string{"r"}}
+		}
+		pairs := []pair{
+			{"file", "trailing-comment-or-marker-not-compared", f("", false), f(" needed by the loader", false)},
+			{"file", "trailing-comment-or-marker-not-compared", f("", false), f("", true)},
+			{"capability", "trailing-comment-or-marker-not-compared", &aa.Capability{Names: []string{"chown"}}, &aa.Capability{Base: aa.Base{Comment: " why"}, Names: []string{"chown"}}},
+			{"profile", "block-compared-by-its-name-only",
+				&aa.Profile{Header: aa.Header{Name: "child", Flags: []string{"complain"}}, Rules: aa.Rules{&aa.Capability{Names: []string{"chown"}}}},
+				&aa.Profile{Header: aa.Header{Name: "child", Attributes: map[string]string{"security.tag": "x"}}, Rules: aa.Rules{&aa.File{Path: "/etc/foo.conf", Access: []string{"r"}}}}},
+			{"hat", "block-compared-by-its-name-only",
+				&aa.Hat{Name: "h", Rules: aa.Rules{&aa.Capability{Names: []string{"chown"}}}},
+				&aa.Hat{Name: "h", Rules: aa.Rules{&aa.File{Path: "/etc/foo.conf", Access: []string{"r"}}}}},
+		}
+		n := 0
+		for _, p := range pairs {
+			n += 4
+			if p.a.String() == p.b.String() {
+				continue
+			}
+			if p.a.Compare(p.b) == 0 && p.b.Compare(p.a) == 0 {
+				report("equal-but-different kind="+p.kind+" cause="+p.cause, "two rules that print differently compare equal", p.a.String(), p.b.String())
+			}
+			ab := aa.Rules{p.a, p.b}.Sort().String()
+			ba := aa.Rules{p.b, p.a}.Sort().String()
+			if ab != ba {
+				report("sort-order-dependent kind="+p.kind+" cause=contains-equal-but-different:"+p.cause, "the same rules supplied in two orders sort to different texts", p.a.String(), p.b.String())
+			}
+		}
+		res["n"], res["pairs"], res["triples"], res["lists"] = 2*len(pairs), n/2, 0, n/2
+	} else if *kind == "mixed" {
 		U := universe.Mixed(*tier, 3)
 		// the comparator of Rules.Sort is not exported: read its sign off two-element sorts
 		cmp := func(i, j int) int8 {
